@@ -37,6 +37,8 @@ def build_graph(case):
             G.add_node(v, flow=node_w[v])
         else:
             G.add_node(v)
+    for v, ln in (case.get("node_lengths") or {}).items():
+        G.nodes[v]["length"] = ln
     lengths = case.get("lengths") or {}
     for a in case["arcs"]:
         u, v = a[0], a[1]
